@@ -74,3 +74,7 @@ def prefix_dep_package(case):
     root = os.path.commonprefix([f["package"] for f in api["files"] if f["name"] in targets]).rstrip(".")
     return any(f["name"] not in targets and f["package"].startswith(root) and not f["package"].startswith(root + ".") and f["package"] != root
                for f in api["files"])
+
+
+def has_additional_bindings(case):
+    return any((m.get("http") or {}).get("additional") for _f, _s, m in M.all_methods(_api(case)))
